@@ -26,3 +26,29 @@ pub use stream::{
     StreamSubscription,
 };
 pub use sync_metrics::{SessionPhase, SyncError};
+
+/// Verification hooks (only compiled with `--cfg p2panda_p2panda_verif`).
+#[cfg(p2panda_p2panda_verif)]
+#[doc(hidden)]
+pub mod verif {
+    use p2panda_core::{SigningKey, Topic};
+    use p2panda_net::gossip::GossipHandle;
+    use p2panda_store::SqliteStore;
+
+    pub use super::acked::Acked;
+    pub use super::sync_metrics::{Aggregator, VerifSyncSummary};
+
+    /// Ephemeral stream halves over a given gossip handle and signing key.
+    pub fn ephemeral_stream<M>(
+        topic: Topic,
+        signing_key: SigningKey,
+        store: SqliteStore,
+        handle: GossipHandle,
+    ) -> (
+        super::EphemeralStreamPublisher<M>,
+        super::EphemeralStreamSubscription<M>,
+    ) {
+        let forge = crate::forge::OperationForge::from_signing_key(signing_key, store);
+        super::ephemeral_stream::ephemeral_stream(topic, forge, handle)
+    }
+}
